@@ -1,5 +1,7 @@
 (* C02 for the family id3f: ID3 save / delete change nothing between the ID3v2 tag and the ID3v1 slot (audio and any
-   trailing APEv2 / Lyrics3 block are part of that payload); the ID3v1 slot changes only as selected by v1. *)
+   trailing APEv2 / Lyrics3 block are part of that payload); the ID3v1 slot changes only as selected by v1.
+   id3f_wf f: strict parse + the payload is unambiguous (does not start with an ID3v2 header, its end is not taken for
+   an ID3v1 tag by the format rule or by find_id3v1 -- inherent ambiguity, e.g. legacy short ID3v1 tags). *)
 From Coq Require Import ZArith List Bool Lia.
 Import ListNotations.
 Require Import Base.Py Base.ZList Gen.Gen_tags Model.Splice Model.Id3Util Model.Fam_id3f
@@ -30,19 +32,30 @@ Theorem C02_id3f_save_frame : forall f fr o f', id3f_save f fr o = Ok f' ->
        ztake (zlen f - old - 128) (zdrop new f') = ztake (zlen f - old - 128) (zdrop old f)).
 Proof. exact c02_save_frame. Qed.
 Print Assumptions C02_id3f_save_frame.
-Theorem C02_id3f_v1_step_frame : forall g mode vb, ztake (zlen g - 128) (save_v1 g mode vb) = ztake (zlen g - 128) g.
+Theorem C02_id3f_v1_step_frame : forall g mode vb st, ztake (zlen g - 128) (save_v1 g mode vb st) = ztake (zlen g - 128) g.
 Proof. exact save_v1_frame. Qed.
 Print Assumptions C02_id3f_v1_step_frame.
 
-(* the precondition "the end of the payload is not taken for an ID3v1 tag by find_id3v1" is necessary (genuine defect
-   of /repo): b"TAG" 128 bytes before the end of a payload ending in an APEv2 footer; save with default options
-   overwrites the last 128 bytes, APEv2 footer included *)
-Theorem C02_id3f_tag_in_apev2_refuted : exists f s fr o f' s',
-  id3f_parse f = Ok s /\ i_v1 s = None /\ 131 <= zlen (i_mid s) /\ frames_ok (o_v2 o) fr = true /\
-  id3f_save f fr o = Ok f' /\ id3f_parse f' = Ok s' /\
-  i_mid s' <> i_mid s /\ zdrop (zlen f' - 32) f' <> zdrop (zlen f - 32) f.
-Proof. exact tag_in_apev2_refuted. Qed.
-Print Assumptions C02_id3f_tag_in_apev2_refuted.
+(* the ID3v1 search never looks into the ID3v2 tag: what it finds on tag ++ payload is what it finds on the payload *)
+Theorem C02_id3f_search_ignores_tag : forall T m, find_id3v1 0 m = None -> find_id3v1 (zlen T) (T ++ m) = None.
+Proof. exact find_id3v1_prefix. Qed.
+Print Assumptions C02_id3f_search_ignores_tag.
+
+(* regression instance (former genuine defect, class tag-in-apev2): b"TAG" 128 bytes before the end of a payload that
+   ends in an APEv2 footer; the file is well-formed and a default save keeps the payload, footer included *)
+Theorem C02_id3f_tag_in_apev2_regression : id3f_wf ex_ape_file = true /\ mid_of ex_ape_file = ex_ape_file /\
+  exists f', id3f_save ex_ape_file ex_frames (ex_opts 1 id3f_cb_default) = Ok f' /\ mid_of f' = ex_ape_file /\
+             zdrop (zlen f' - 32) f' = zdrop (zlen ex_ape_file - 32) ex_ape_file.
+Proof. exact tag_in_apev2_regression. Qed.
+Print Assumptions C02_id3f_tag_in_apev2_regression.
+
+(* the "3 payload bytes in front of an ID3v1 tag" part of v1_hyp / id3f_wf is necessary for the faithful model: a file
+   that is only an ID3v1 tag, new frames ending in b"TAG", padding 0, v1=2: a second ID3v1 tag is appended *)
+Theorem C02_id3f_short_mid_refuted : exists f s fr o f' s',
+  id3f_parse f = Ok s /\ i_mid s = [] /\ i_v1 s = Some ex_v1 /\ frames_ok (o_v2 o) fr = true /\
+  id3f_save f fr o = Ok f' /\ id3f_parse f' = Ok s' /\ i_mid s' <> i_mid s /\ zlen f' = zlen fr + 10 + 256.
+Proof. exact short_mid_refuted. Qed.
+Print Assumptions C02_id3f_short_mid_refuted.
 
 Example C02_id3f_example : exists f', id3f_save ex_file ex_frames (ex_opts 1 id3f_cb_default) = Ok f' /\ zlen f' = zlen ex_file.
 Proof. exact ex_save_ok. Qed.
